@@ -23,11 +23,11 @@
 package netflow9
 
 import (
-	"encoding/binary"
 	"encoding/json"
 	"hash/fnv"
 	"io/ioutil"
 	"net"
+	"strconv"
 	"sync"
 	"time"
 )
@@ -46,7 +46,7 @@ type Data struct {
 
 // TemplatesShard represents a shard
 type TemplatesShard struct {
-	Templates map[uint32]Data
+	Templates map[string]Data
 	sync.RWMutex
 }
 type memCacheDisk struct {
@@ -64,7 +64,7 @@ func GetCache(cacheFile string) MemCache {
 
 	m := make(MemCache, shardNo)
 	for i := 0; i < shardNo; i++ {
-		m[i] = &TemplatesShard{Templates: make(map[uint32]Data)}
+		m[i] = &TemplatesShard{Templates: make(map[string]Data)}
 	}
 
 	b, err := ioutil.ReadFile(cacheFile)
@@ -87,16 +87,16 @@ func GetCache(cacheFile string) MemCache {
 	return m
 }
 
-func (m MemCache) getShard(id uint16, addr net.IP) (*TemplatesShard, uint32) {
-	b := make([]byte, 2)
-	binary.BigEndian.PutUint16(b, id)
-	key := append(addr, b...)
+func (m MemCache) getShard(id uint16, addr net.IP) (*TemplatesShard, string) {
+	// the key names the exporter and the template id themselves: two
+	// exporter/id pairs can share a shard but never a cache entry
+	key := addr.String() + "/" + strconv.Itoa(int(id))
 
 	hash := fnv.New32()
-	hash.Write(key)
+	hash.Write([]byte(key))
 	hSum32 := hash.Sum32()
 
-	return m[uint(hSum32)%uint(shardNo)], hSum32
+	return m[uint(hSum32)%uint(shardNo)], key
 }
 
 func (m *MemCache) insert(id uint16, addr net.IP, tr TemplateRecord) {
